@@ -204,6 +204,10 @@ def workdir():
         for rel in ("src/a.f90", "src/b.f90", "src/sub/b.f90", "src/sub/c.f90", "src/test_x/t.f90", "lib/b.f90"):
             (d / "proj" / rel).parent.mkdir(parents=True, exist_ok=True)
             (d / "proj" / rel).write_text(f"module m_{rel.replace('/', '_').replace('.', '_')}\nend module\n")
+        # ... a source directory beside the project directory (docs/project.md with src_dir: ../src is a common layout)
+        for rel in ("outer/x.f90", "outer/skip.f90", "outer/skip_too.f90"):
+            (d / rel).parent.mkdir(parents=True, exist_ok=True)
+            (d / rel).write_text(f"module m_{rel.replace('/', '_').replace('.', '_')}\nend module\n")
         # ... and files of the same names below the other working directories
         for base in (d, d / "elsewhere"):
             (base / "src").mkdir(exist_ok=True)
@@ -429,17 +433,18 @@ def run_case(st: Stats, case):
             st.stratum("cli/" + layer, 0 if ok else 1)
     elif kind == "select":
         # options that select source files: the selection is the same from every working directory and in every format
-        _, optname, value, want = case
+        _, optname, value, want, *more = case
+        src_dirs = list(more[0]) if more else ["src", "lib"]
         st.nontrivial.add(core.digest(case))
         obs = {}
         for fmt in ("md", "toml"):
             for cwd in ("proj", "parent", "elsewhere"):
-                got, err, log = evaluate(fmt, {"src_dir": ["src", "lib"], optname: value}, cwd=cwd, select=True)
+                got, err, log = evaluate(fmt, {"src_dir": src_dirs, optname: value}, cwd=cwd, select=True)
                 st.evaluations += 1
                 st.transitions += 1
                 obs[f"{fmt}/{cwd}"] = err or list(SELECTED.get("files", []))
         feats = dict(space="select", option=optname, value=str(value))
-        inp = dict(option=optname, value=value)
+        inp = dict(option=optname, value=value, src_dir=src_dirs, want=want)
         bad = 0
         vals = list(obs.values())
         if any(v != vals[0] for v in vals):
@@ -547,6 +552,11 @@ def gen_cases(tier):
                                  ("exclude_dir", ["src/sub"], ["src/sub/b.f90", "src/sub/c.f90"]), ("exclude_dir", ["**/test*"], ["src/test_x/t.f90"]), ("exclude_dir", ["lib"], ["lib/b.f90"]),
                                  ("extensions", ["f90"], [])):
         yield ("select", optname, value, [f for f in ALL if f not in gone])
+    # the sources lie beside the project file's directory: patterns written through `..` are relative to the project file as well
+    OUT = ["../outer/skip.f90", "../outer/skip_too.f90", "../outer/x.f90"]
+    for optname, value, gone in (("exclude", ["../outer/skip.f90"], ["../outer/skip.f90"]), ("exclude", ["../outer/*_too.f90"], ["../outer/skip_too.f90"]),
+                                 ("exclude", ["**/skip.f90"], ["../outer/skip.f90"]), ("exclude_dir", ["../outer"], OUT), ("extensions", ["f90"], [])):
+        yield ("select", optname, value, [f for f in OUT if f not in gone], ["../outer"])
     for fmt in ("md", "toml", "config"):
         for key in ("no_such_option", "projekt", "output-dir", "relative"):  # the last one is an attribute of the settings object, not an option
             yield ("unknown", fmt, key)
@@ -577,6 +587,8 @@ def replay(path):
     st = Stats()
     if "options" in i:
         check_formats(st, i["options"], rec["site"], rec["features"], i.get("cwd", "proj"))
+    elif "src_dir" in i:
+        run_case(st, ("select", i["option"], i["value"], i.get("want"), i["src_dir"]))
     else:
         print(i)
         return 1
